@@ -21,6 +21,7 @@ func checkC08(c *Ctx) Meta {
 	c.Rule("C08-TARGET", "a template is returned only on the true edge of bestQuality.Cmp(GetTarget(template timestamp)) > 0; qualities are VerifiedQuality of each proof with its own key hash, the template challenge and the work slot; best index and best quality move together", 4)
 	c.Rule("C08-SLOT", "slot counter and template timestamp advance together; each slot evaluation passes the quit test and the stale test; evaluation is bounded by now + allowAhead", 4)
 	checkV2EarliestSlot(c, "C08-SLOT")
+	checkNoCopiedReceiver(c, "C08-SLOT", []string{pkgMiner, repoMod + "/poc/engine.v2/pocminer/miner", pkgCapacity, pkgSkchia})
 	c.Rule("C08-SIGN", "the PoC hash is computed after the header is final (only Signature is stored afterwards) and signed by the keeper with the winning space's id; header key, proof, timestamp, target and challenge come from the winning proof and the template", 7)
 	c.Rule("C08-SUBMIT", "ProcessBlock runs only after time.Now().After(header timestamp); a height is recorded as mined only after acceptance; a recorded height is never solved again; the mined-height map is touched only by the generator goroutine's functions", 4)
 
@@ -905,8 +906,27 @@ func checkLoopVarCapture(c *Ctx, rule string, pkgs []string) {
 						}
 					}
 				}
+				// a struct shared by all iterations whose fields are set per iteration (`job.ws = ws; submit(job.run)`)
+				if refs := a.Referrers(); refs != nil && !assignedInLoop {
+					for _, r := range *refs {
+						fa, isFA := r.(*ssa.FieldAddr)
+						if !isFA || fa.Referrers() == nil {
+							continue
+						}
+						for _, r2 := range *fa.Referrers() {
+							if st, isSt := r2.(*ssa.Store); isSt && st.Addr == ssa.Value(fa) && blockReentered(fn, st) {
+								if reach(fn, st, nil, nil)(mc) && reach(fn, mc, nil, nil)(st) {
+									assignedInLoop = true
+								}
+							}
+						}
+					}
+				}
 				if assignedInLoop {
 					bad = a.Comment
+					if bad == "" {
+						bad = "a struct made before the loop"
+					}
 				}
 			}
 			if bad != "" {
@@ -977,5 +997,70 @@ func checkV2EarliestSlot(c *Ctx, rule string) {
 		c.OK(rule, key, c.Pos(upd.Pos()), "the true edge of `slot < bestSlot` reaches the update without a quality comparison")
 	} else {
 		c.Bad(rule, key, c.Pos(upd.Pos()), "an eligible report of a strictly earlier slot replaces the best only if its quality is also higher: the miner can settle on a later slot than the earliest eligible one")
+	}
+}
+
+// checkNoCopiedReceiver: a function value made from a method (`x.m`) binds its receiver when it is made.
+// If m has a value receiver the function value carries a *copy* of x as it was then; when other methods
+// of the same type (pointer receivers) or other code write x's fields afterwards — the stale monitor
+// raising its flag — the function value never sees it. No method value in the packages examined binds a
+// struct by value whose fields are written anywhere else.
+func checkNoCopiedReceiver(c *Ctx, rule string, pkgs []string) {
+	inPkgs := map[string]bool{}
+	for _, p := range pkgs {
+		inPkgs[p] = true
+	}
+	n := 0
+	var bad []string
+	for fn := range c.AllFuncs {
+		if !inPkgs[pkgOf(fn)] {
+			continue
+		}
+		fn := fn
+		allInstrs(fn, func(in ssa.Instruction) {
+			mc, ok := in.(*ssa.MakeClosure)
+			if !ok {
+				return
+			}
+			m := boundMethodTarget(mc)
+			if m == nil || len(mc.Bindings) == 0 {
+				return
+			}
+			n++
+			bt := mc.Bindings[0].Type()
+			if _, isPtr := bt.Underlying().(*types.Pointer); isPtr {
+				return
+			}
+			named, isNamed := bt.(*types.Named)
+			if !isNamed {
+				return
+			}
+			if _, isStruct := named.Underlying().(*types.Struct); !isStruct {
+				return
+			}
+			tname := named.Obj().Pkg().Path() + "." + named.Obj().Name()
+			// is any field of that type written (plain or atomic) by some function?
+			written := ""
+			for g := range c.AllFuncs {
+				if pkgOf(g) != named.Obj().Pkg().Path() {
+					continue
+				}
+				for _, a := range fieldAccessesShallow(g) {
+					if a.Type == tname && a.Write && !isFreshObject(a.Base) {
+						written = a.Field + " in " + g.Name()
+					}
+				}
+			}
+			if written != "" {
+				bad = append(bad, fmt.Sprintf("%s: method value %s.%s at %s binds a copy of the %s (field %s is written later)", fn.Name(), named.Obj().Name(), m.Name(), c.Pos(mc.Pos()), named.Obj().Name(), written))
+			}
+		})
+	}
+	sort.Strings(bad)
+	key := "method-values-bind-shared-objects"
+	if len(bad) > 0 {
+		c.Bad(rule, key, "", strings.Join(bad, "; ")+": the function value reads the copy made when it was created, so a flag raised afterwards (a better chain tip arrived) is never seen and the round is not abandoned")
+	} else {
+		c.OK(rule, key, "", fmt.Sprintf("%d method values examined, none binds a mutable struct by value", n))
 	}
 }
